@@ -161,6 +161,16 @@ def part_exploit(ctx, n):
         tsp = [c for c in spins if c != ","] if spins else [""] * len(names)
         nbase = rng.randint(1, 2)
         terms = []
+        occs0 = [(nm, sp) for nm, sp in zip(names, tsp) if nm in G.OCC]
+        virs0 = [(nm, sp) for nm, sp in zip(names, tsp) if nm in G.VIRT]
+        if len(occs0) == 2 and len(virs0) == 2 and rng.random() < 0.3:
+            # product of identical tensors: invariant under the product of two permutations, under neither alone
+            def T(o, v):
+                return ("nonsym", "Zz", (o, v), (), 0)
+            c0 = rng.choice([1, 2])
+            terms = [(c0, [T(occs0[0], virs0[0]), T(occs0[1], virs0[1])]),
+                     (rng.choice([c0, -c0]), [T(occs0[1], virs0[0]), T(occs0[0], virs0[1])])]
+            nbase = 0
         for _ in range(nbase):
             b = base_term_for_targets(rng, names, tsp)
             terms.append(b)
